@@ -12,8 +12,9 @@
 (* Action Mutate(f) applies ONE fault f = [kind, i, j, site] to the built  *)
 (* workflow: nothing / drop a component / rename a reference (to a name or *)
 (* to a stage that does not exist) / add an edge that closes a cycle /     *)
-(* duplicate an identifier / misspell an option key / give an option a     *)
-(* value of the wrong type / remove the definition of a variable -- at     *)
+(* duplicate an identifier / misspell an option key / give a typed option  *)
+(* a value of another class (every site x every class, Rule(site, cls)     *)
+(* says what the loader owes) / remove the definition of a variable -- at  *)
 (* every position where the fault applies.  The mutated workflow `mw`      *)
 (* names producers by (stage, name), so dangling references, duplicates    *)
 (* and cycles are expressible.                                             *)
